@@ -210,6 +210,9 @@ class Holder:
     n: Any = 1
 
 
+NHolder = namedtuple("NHolder", "t n", defaults=[(0, 0), 1])
+
+
 @dataclass
 class HFirst:
     """a field that is no constructor argument in front of the others"""
@@ -334,7 +337,7 @@ def mutate_in_place(v, depth=0):
 
 
 __all__ = [
-    "IdentityEq", "LossyCopy", "SelfCopy", "RaisingEq", "MyList", "Locky", "MySet", "MyFrozen", "HFirst", "Holder", "Decimal", "nan", "mutate_in_place", "APriv", "PAlias", "DInit", "make_dinit",
+    "IdentityEq", "LossyCopy", "SelfCopy", "RaisingEq", "MyList", "Locky", "MySet", "MyFrozen", "HFirst", "Holder", "NHolder", "Decimal", "nan", "mutate_in_place", "APriv", "PAlias", "DInit", "make_dinit",
     "Color", "Level", "Perm", "Outer", "Point", "FPoint", "Box", "APoint", "AFrozen",
     "PModel", "NT", "TNT", "Opaque", "Vec", "defaultdict", "inf", "Hidden", "AHidden", "PHidden", "PExtra", "IVar", "SubPoint", "Point3", "IPerm", "OrderedDict", "Counter",
 ]
